@@ -25,10 +25,14 @@ RULE = ('pyipmi.ipmitool.main() is run in-process (sys.argv, stdout/stderr, pyip
         'vectors whose numbers are written as decimal / 0x / 0X / 0o / 0b / underscore / blank-padded / signed / leading-zero '
         'literals (decimal and hex MUST be read, whatever int() the entry uses; the other forms are compared with the model '
         'of that int()), each also run as the corresponding direct API call on a fresh identical BMC (request sequences with '
-        'their targets, outcome class and exit status compared), on six stub personalities - full (every SDR type of IPMI '
+        'their responder LUN and target, outcome class and exit status compared), on seven stub personalities - full (every SDR type of IPMI '
         'ch. 43, non-linear sensors with raw 0 / unused thresholds, sensors flagged reading/state unavailable, a channel '
         'without link, an HPM.1 upgrade agent that takes a whole small image), minimal (C1h), plain, sdrtypes, nonlinear, '
-        'unavailable - and with a fault at every (sampled) request index, at the session set-up and at the session '
+        'unavailable, luns (full and compact sensor records on sensor owner LUN 0, 1 and 3 - table 43-1 byte 7 [1:0]; two '
+        'sensors share their number on different LUNs with different readings, one number exists on LUN 3 only; Get Sensor '
+        'Reading answered per (LUN, number), CBh otherwise; `sdr show` of every such record, `sdr showall`, `sdr list`; the '
+        'Get Sensor Reading requests are also compared, LUN included, with the Lean model of the handlers\' '
+        'get_sensor_reading calls) - and with a fault at every (sampled) request index, at the session set-up and at the session '
         'tear-down (alone and after a failed command): a completion code, IpmiTimeoutError, every other exception class of '
         'pyipmi/errors.py and socket.timeout, as the library\'s own interfaces raise them; the end of main (message, '
         'status / escaping exception) is compared with the Lean model of the except clauses and the try/finally, the Python '
@@ -74,8 +78,14 @@ ASSUMPTIONS = [
     'model/code disagreement, not as silence',
     'observations of the audit that the property text does not decide (kept out of the verdict): -b <channel> builds the '
     'one-hop routing [(0x20, channel, 0)] (the property names target address and explicit routing -r; -b is compared with '
-    'the model only); `sdr list` and the compact branch of `sdr show` read the sensor on LUN 0 (the CLI is compared with '
-    'the API call sequence it makes, the owner LUN is C07/C16 matter); -L accepts user / operator / administrator only '
+    'the model only); `sdr list` (full and compact records) and the compact branch of `sdr show` / `sdr showall` call '
+    'get_sensor_reading(number) and so read LUN 0 whatever sensor owner LUN the record carries: on a controller with '
+    'sensors on LUN 1 / 3 they print the reading of the sensor with that number on LUN 0, or a completion code CBh (stub '
+    'profile luns, Props theorem sdr_list_and_compact_read_lun0).  The API twin of these four reads is '
+    'get_sensor_reading(number) as well, so the check is silent about it on the pinned tree; the twin of the FULL branch '
+    'of `sdr show` / `sdr showall` is get_sensor_reading(number, owner_lun).  The responder LUN of every request is part '
+    'of the comparison, and Props.C20.sensor_reads_today pins the LUN argument of all six calls, so any change of which '
+    'LUN is read - in either direction - is reported (signature C20:requests:<entry>:lun).  -L accepts user / operator / administrator only '
     '(callback / oem -> KeyError: not generated); Aardvark pullups=off / power=off are parsed to False and handed to the '
     'interface as given (that aardvark.py treats False as "not given" is outside ipmitool.py)',
     'the as-shipped counter-example theorems are about a frozen copy of the pinned table (Lemmas/CliAsShipped.lean)',
@@ -436,7 +446,8 @@ def entry_specs():
         'sensor rearm': ([[('n', 0x30)], [('n', 0x31)], [('n', 7)]], lambda v: lambda i: i.rearm_sensor_events(v[0])),
         'sdr list': ([[]], lambda v: _sdr_list),
         'sdr raw': ([[('n', 1)], [('n', 2)], [('n', 77)], [('n', 5)], [('n', 0x20)]], lambda v: lambda i: i.get_device_sdr(v[0])),
-        'sdr show': ([[('n', x)] for x in (1, 2, 77, 3, 4, 6, 9, 11, 12, 0x20, 0x21, 0x22, 0x23, 0x25, 0x30, 0x31)],
+        'sdr show': ([[('n', x)] for x in (1, 2, 77, 3, 4, 6, 9, 11, 12, 0x20, 0x21, 0x22, 0x23, 0x25, 0x30, 0x31,
+                                           0x40, 0x41, 0x42, 0x43, 0x44, 0x45)],
                      lambda v: lambda i: _sdr_show(i, v[0])),
         'sdr showall': ([[]], lambda v: _sdr_showall),
         'fru print': ([[], [('n', 0)], [('n', 0), ('w', 'all')], [('n', 1)]],
@@ -642,8 +653,14 @@ def judge_entry_run(ctx, name, idx, argv, api_fn, profile, faults, unresolved_na
                     expected='non-zero exit status and a message', observed={'exit': o.exit, 'stdout_tail': o.stdout[-120:]})
         return o
     if o.requests != a_reqs or [t for t in o.targets] != [t for t in a_tgts]:
-        ctx.violate('C20:requests:%s' % name,
-                    '%r issues other requests than the corresponding API call' % name, case,
+        sig, what = 'C20:requests:%s' % name, '%r issues other requests than the corresponding API call' % name
+        k = ([i for i, (x, y) in enumerate(zip(o.requests, a_reqs)) if x != y] or [None])[0]
+        if k is not None and o.requests[k][1:] == a_reqs[k][1:]:
+            # same NetFn, command and data: the request goes to another responder LUN (another sensor / device)
+            sig += ':lun'
+            what = '%r sends request %d (NetFn %02xh, bytes %s) to LUN %s, the corresponding API call sends it to ' \
+                   'LUN %s' % (name, k, a_reqs[k][1], a_reqs[k][2], o.requests[k][0], a_reqs[k][0])
+        ctx.violate(sig, what, case,
                     expected={'requests': a_reqs[:12], 'targets': a_tgts[:3]},
                     observed={'requests': o.requests[:12], 'targets': o.targets[:3], 'exit': o.exit})
         return o
@@ -847,6 +864,62 @@ def record_facts(rec, readings):
     return d
 
 
+def model_sensor_read(drv, cmd, rec):
+    """driver: the Get Sensor Reading request of today's handler of command `cmd` (code points) for stub record
+    `rec`, whose type / sensor owner LUN / sensor number are read per table 43-1 / 43-2 (byte 4, byte 7 [1:0],
+    byte 8) -> (lun, netfn, hex) | None"""
+    a = drv.ask('sensorread %s %d %d %d' % (cmd, rec[3], rec[6] & 0x03, rec[7]))
+    if a == 'none':
+        return None
+    t = a.split(' ')
+    if t[0] != 'req':
+        raise lean.LeanError('drv_c20', 'sensorread: ' + a)
+    return (int(t[1]), int(t[2]), t[3])
+
+
+def sensor_reply_of(drv, bmc, cmd, rec):
+    """the stub's reply to that request: None (no sensor read for this record) | 'cb' (no such sensor) | reply bytes"""
+    q = model_sensor_read(drv, cmd, rec)
+    if q is None:
+        return None
+    reply = bmc.reading_of(q[0], rec[7])
+    return 'cb' if reply is None else reply
+
+
+def tie_sensor_reads(ctx, name, vals, argv, profile, o):
+    """tie: the Get Sensor Reading requests (responder LUN, NetFn, bytes) of a fault-free `sdr list` / `sdr show` /
+    `sdr showall` run vs the Lean model of today's handlers (`sensorReadOf` over the generated table of
+    get_sensor_reading calls), record by record of the stub's repository"""
+    if name not in ('sdr list', 'sdr show', 'sdr showall') or o.launch is None:
+        return
+    if o.exit[0] == 'raise' and o.exit[1] == 'ValueError' and not o.requests:
+        return
+    if o.exit[0] == 'raise' and o.py_error:
+        return          # reported / tied by the Python-error oracle; the request sequence is cut short
+    if not literal_verdict(ctx, o.launch['entry'], o.launch['args'])[0]:
+        return          # the model's int() rejects the record id (`sdr show` prints an empty line): tied by 'literal'
+    drv = ctx.driver('drv_c20')
+    bmc = Bmc20(profile)
+    recs = [] if profile == 'minimal' else list(bmc.sdrs)
+    if name == 'sdr show':
+        recs = [r for r in recs if vals and (r[0] | r[1] << 8) == vals[0]]
+    cmd = enc(name)
+    want = []
+    for rec in recs:
+        q = model_sensor_read(drv, cmd, rec)
+        if q is None:
+            continue
+        want.append(q)
+        ctx.count('sensor-read:type%d:owner-lun%d:read-on-lun%d' % (rec[3], rec[6] & 3, q[0]))
+        reply = bmc.reading_of(q[0], rec[7])
+        if (reply is None or reply[0] != 0) and name != 'sdr list':
+            break           # the command ends with the completion code (`sdr list` prints it and goes on)
+    got = [q for q in o.requests if q[1] == 0x04 and q[2].startswith('2d')]
+    if got != want:
+        ctx.disagree('sensor-read', {'kind': 'entry', 'argv': argv, 'profile': profile, 'entry': name, 'faults': []},
+                     str(want), str(got))
+
+
 def predict_python_error(ctx, name, args, profile):
     """the Lean model of the printing handlers (with the facts the translator read off today's source): the
     Python error that ends entry `name` on the stub profile, or None.  Only for the entries it models."""
@@ -865,15 +938,23 @@ def predict_python_error(ctx, name, args, profile):
         return ask('linkstate 0') if bmc.linkless else None
     if name not in ('sdr list', 'sdr show', 'sdr showall'):
         return None
-    recs = [record_facts(r, bmc.readings) for r in bmc.sdrs]
+    cmd = enc(name)
+    recs = []
+    for raw in bmc.sdrs:
+        # the sensor the MODEL says the command reads for this record (LUN and number), and the stub's reply to it
+        reply = sensor_reply_of(drv, bmc, cmd, raw)
+        r = record_facts(raw, {} if reply in (None, 'cb') else {raw[7]: reply})
+        r['cc'] = reply == 'cb' or (reply is not None and reply[0] != 0)
+        recs.append(r)
     if name == 'sdr show':
         recs = [r for r in recs if r['id'] == args[0]]
-    cmd = enc(name)
     for r in recs:
         if name != 'sdr list':
             e = ask('sdrshow %d' % r['type'])
             if e:
                 return e
+            if r['cc']:
+                return None         # Get Sensor Reading ends the command with a completion code
         if r['lin'] is not None:
             cells = ([r['reading']] if r['reading'] else []) + (r['thresholds'] if name != 'sdr list' else [])
             for sg in cells:
@@ -904,7 +985,7 @@ def tie_python_error(ctx, name, vals, argv, profile, o):
 # ------------------------------------------------------------------------------------- entries
 def _profiles_of(name):
     if name.startswith('sdr'):
-        return ('full', 'minimal', 'plain', 'sdrtypes', 'nonlinear', 'unavailable')
+        return ('full', 'minimal', 'plain', 'sdrtypes', 'nonlinear', 'unavailable', 'luns')
     return ('full', 'minimal', 'plain')
 
 
@@ -937,6 +1018,7 @@ def _entries(ctx, snap, unresolved_names):
                     for profile in _profiles_of(name):
                         o = judge_entry_run(ctx, name, idx, argv, fn, profile, None, unresolved_names, 'entry')
                         tie_python_error(ctx, name, vals, argv, profile, o)
+                        tie_sensor_reads(ctx, name, vals, argv, profile, o)
                     if fk == 'dec' or (fk is None and not shape and not extra):
                         _faults(ctx, name, idx, argv, fn, unresolved_names, rng)
         # picmg channel power has no API oracle of its own (see fixes/C20-3.md): shape of the request only
@@ -1815,6 +1897,9 @@ def _probe(ctx):
     line = ctx.driver('drv_c20').ask('probe')
     d = dict(t.split('=', 1) for t in line.split(' '))
     d['catch'] = dict((dec(a), b) for a, b in (e.split(':') for e in d['catch'].split(';'))) if d['catch'] != '-' else {}
+    reads = ctx.driver('drv_c20').ask('sensorreads')
+    d['sensorReads'] = ' '.join('%s:%s' % (dec(t.split(':')[0]), t.split(':', 1)[1]) if ':' in t else t
+                                for t in reads.split(' '))
     ctx.extra['source_variant'] = d
     holds = {
         'all_errors_exit_nonzero / main_reports_every_failure: exitsCover': d['escaping'] == '-',
@@ -1823,6 +1908,9 @@ def _probe(ctx):
         'portstate_no_python_error: linkNoneGuard': d['link'] == '1',
         'sdr_show_no_python_error: idStringGuard, entityGuard': d['idstr'] == '1' and d['entity'] == '1',
         'sdr_show_state_no_python_error: stateNoneGuard': d['state'] == '1',
+        'sensor_reads_today: full branch of sdr show / showall passes owner_lun, the others no LUN, default 0':
+            reads == ('%s:1:D %s:2:D %s:1:O %s:2:D %s:1:O %s:2:D default=0' % tuple(
+                enc(c) for c in ('sdr list', 'sdr list', 'sdr show', 'sdr show', 'sdr showall', 'sdr showall'))),
         'sensor_values_no_python_error: catchesArithmetic': bool(d['catch']) and all(
             set(v.split('+')) & {'ArithmeticError', 'Exception', 'BaseException'} or
             (set(v.split('+')) >= {'ValueError', 'ZeroDivisionError'}) for v in d['catch'].values()),
@@ -1924,6 +2012,10 @@ def search(ctx):
             ctx.violate('C20:exit:model', 'exit status / message differs from the except clauses', c,
                         expected=d['model'], observed=d['code'])
             d['explained_by'] = 'exit'
+        elif d['what'] == 'sensor-read' and c.get('argv'):
+            ctx.violate('C20:handler:sensor-read', 'a printing handler sends Get Sensor Reading to another (LUN, number) than '
+                        'the model of its get_sensor_reading calls', c, expected=d['model'], observed=d['code'])
+            d['explained_by'] = 'handler'
         elif d['what'] in ('handler', 'literal') and c.get('argv'):
             ctx.violate('C20:handler:model', 'a handler differs from its model (int() conversions / optional API results)',
                         c, expected=d['model'], observed=d['code'])
@@ -2005,9 +2097,19 @@ def replay(ctx, v):
         un = set(u[2] for u in python_unresolved(snap))
         c2.driver('drv_c20')
         ctx._drivers = c2._drivers
-        judge_entry_run(c2, name, names.index(name), argv, api(vals) if api else None, profile, faults or None, un, kind)
+        o2 = judge_entry_run(c2, name, names.index(name), argv, api(vals) if api else None, profile, faults or None, un,
+                             kind)
         for x in c2.violations:
             print('  ' + x['what'])
+        if sig in ('C20:handler:sensor-read', 'C20:handler:model') and not faults:
+            # model-based signatures: does the run still differ from the model of the handlers?
+            c2.disagreements = []
+            tie_sensor_reads(c2, name, vals, argv, profile, o2)
+            if sig == 'C20:handler:model':
+                tie_python_error(c2, name, vals, argv, profile, o2)
+            for d in c2.disagreements:
+                print('  model: %s\n  code:  %s' % (d['model'], d['code']))
+            return bool(c2.disagreements)
         return any(x['signature'] == sig for x in c2.violations)
     if kind == 'chassis':
         c2._drivers = ctx._drivers
